@@ -194,6 +194,18 @@ impl AstLowering {
         s
     }
 
+    /// Make the validation hooks of the newtypes declared in an imported module known to this lowering (multi-file
+    /// projects): `T(x)` written in a module that imports `T` must go through `T`'s hook exactly as in `T`'s own module.
+    pub fn register_imported_newtypes(&mut self, imported: &ast::Program) {
+        for decl in &imported.declarations {
+            if let ast::Declaration::Newtype(ref n) = decl.node {
+                if let Some(ctor) = Self::select_newtype_checked_ctor(n) {
+                    self.newtype_checked_ctor.entry(n.name.clone()).or_insert(ctor);
+                }
+            }
+        }
+    }
+
     /// Lower a complete AST program to IR.
     ///
     /// This is the main entry point for the lowering pass. It performs:
@@ -250,6 +262,9 @@ impl AstLowering {
                 // Track validation hook selection for checked construction lowering.
                 if let Some(ctor) = Self::select_newtype_checked_ctor(n) {
                     self.newtype_checked_ctor.insert(n.name.clone(), ctor);
+                } else {
+                    // a local declaration shadows an imported newtype of the same name (and its hook)
+                    self.newtype_checked_ctor.remove(&n.name);
                 }
             }
         }
